@@ -250,6 +250,13 @@ func (p *Prog) handledOnEdge(fn *ssa.Function, e Edge) bool {
 						return true
 					}
 				}
+			case *ssa.MakeInterface:
+				// … or a typed one built on the spot
+				if isErrorType(x.Type()) {
+					if _, isPtr := x.X.Type().Underlying().(*types.Pointer); isPtr && p.errorUses(fn, x).Returned {
+						return true
+					}
+				}
 			}
 		}
 	}
@@ -1839,6 +1846,13 @@ func (p *Prog) unreportedPath(fn *ssa.Function, e Edge, ev ssa.Value, cn string)
 				}
 				if definitelyNonNilErr(x) && p.errorUses(fn, x).Returned {
 					return
+				}
+			case *ssa.MakeInterface:
+				// a typed error built on the spot (&InvalidRuleError{…}) is a fresh error like fmt.Errorf's
+				if isErrorType(x.Type()) {
+					if _, isPtr := x.X.Type().Underlying().(*types.Pointer); isPtr && p.errorUses(fn, x).Returned {
+						return
+					}
 				}
 			}
 		}
